@@ -357,7 +357,8 @@ def gen_history(rng, tree, cfg):
         elif r < 0.80:
             steps.append({"op": "del_c", "file": rng.choice(mods)})
         elif r < 0.85:
-            steps.append({"op": "foreign_c", "file": rng.choice(mods), "how": rng.choice(["other_version", "other_version", "empty"])})
+            steps.append({"op": "foreign_c", "file": rng.choice(mods),
+                          "how": rng.choice(["other_version", "near_version:b1", "near_version:rc2", "near_version:.dev0", "near_version:.1", "near_version:-", "empty"])})
         elif r < 0.92 and others:
             # restructure: change the cimport/include statements of a file
             steps.append({"op": "restructure", "file": rng.choice(others + mods), "seed": rng.randrange(1 << 30)})
@@ -400,8 +401,15 @@ def simulate(case, rundir):
         return os.path.getmtime(os.path.join(root, path))
 
     def generated(cpath):
-        from Cython import Utils
-        return bool(Utils.file_generated_by_this_cython(os.path.join(root, cpath)))
+        # the model's own reading of the marker (not the function under test): first line is exactly this version's marker
+        import Cython
+        want = ("/* Generated by Cython %s */" % Cython.__version__).encode()
+        try:
+            with open(os.path.join(root, cpath), "rb") as f:
+                first = f.readline().rstrip(b"\r\n")
+        except OSError:
+            return False
+        return first == want
 
     for si, st in enumerate(steps):
         op = st["op"]
@@ -445,6 +453,14 @@ def simulate(case, rundir):
                     data = f.read()
                 if st["how"] == "other_version":
                     data = b"/* Generated by Cython 0.29.0 */\n" + data.split(b"\n", 1)[-1]
+                elif st["how"].startswith("near_version:"):
+                    # a C file written by a release whose version string merely extends (or is a prefix of) the running one:
+                    # pre-release -> final upgrades; still a different generator, so the file has to be regenerated
+                    import Cython
+                    suf = st["how"].split(":", 1)[1]
+                    v = Cython.__version__[:-1] if suf == "-" else Cython.__version__ + suf
+                    data = ("/* Generated by Cython %s */\n" % v).encode() + data.split(b"\n", 1)[-1]
+                    probe("foreign_c_marker_near_version")
                 elif st["how"] == "not_cython":
                     data = b"/* hand written */\n"
                 else:
